@@ -306,9 +306,12 @@ def decide_chunk(run, jobs, leg, shards, lookups, quant_path, stats):
         v = verdicts.get(n, [])
         tags = tags_of(v)
         q = jobs[i]["qs"]
-        for tagname in ("UNSUPPORTED", "NOTE"):
-            if tagname in tags:
-                stats[tagname.lower()] = stats.get(tagname.lower(), 0) + 1
+        if "UNSUPPORTED" in tags:
+            stats["unsupported"] = stats.get("unsupported", 0) + 1
+        for t, d in v:
+            if t == "NOTE":
+                k = "note_" + d.rsplit('"', 2)[-2] if d.count('"') >= 2 else "note"
+                stats[k] = stats.get(k, 0) + 1
         if "UNSUPPORTED" in tags and len(stats.setdefault("unsupported_examples", [])) < 5:
             stats["unsupported_examples"].append({"q": q, "why": [d for t, d in v if t == "UNSUPPORTED"][:2]})
         if "UNSUPPORTED" not in tags:
